@@ -20,6 +20,13 @@ import (
 // C10, generation 1 lend auctions (x/auction dutch_lend.go): borrow positions opened through
 // MsgBorrowAlternate, seized by the real x/liquidation LiquidateBorrows after a price move, bid through
 // MsgPlaceDutchLendBid, prices moved by auction.BeginBlocker.
+//
+// Since fix 6257748 the bid that closes a lend auction fails when the locked borrow still has collateral and debt
+// left and one of the two price feeds is missing or inactive (x/liquidation UnLiquidateLockedBorrows returns the
+// error of lend.CalculateCollateralizationRatio).  Every start op therefore carries the locked vault's id and
+// its AmountIn / AmountOut / UpdatedAmountOut, every observation repeats them per live auction (K lines: the
+// model must keep them unchanged until the close), and every bid carries the two feeds as the market keeper
+// has them at the bid (found && IsPriceActive, Twa) - the verdict itself is the model's.
 
 type c10lendCase struct {
 	buffer, cusp, bonus, penalty sdk.Dec
@@ -197,6 +204,8 @@ func TestC10V1Lend(t *testing.T) {
 				tr.p("A %d %s %s %s %s %s %s %s %d %d", au.AuctionId, au.OutflowTokenCurrentAmount.Amount, au.InflowTokenTargetAmount.Amount,
 					au.InflowTokenCurrentAmount.Amount, au.OutflowTokenCurrentPrice.BigInt(), au.InflowTokenCurrentPrice.BigInt(),
 					au.OutflowTokenInitialPrice.BigInt(), au.OutflowTokenEndPrice.BigInt(), c10Unix(au.StartTime), c10Unix(au.EndTime))
+				lv, lvFound := a.LiquidationKeeper.GetLockedVault(c, app, au.LockedVaultId)
+				tr.p("K %d %d %s %s %s %s", au.AuctionId, au.LockedVaultId, b2s(lvFound), lv.AmountIn, lv.AmountOut, lv.UpdatedAmountOut)
 			}
 			tr.p("E")
 		}
@@ -211,8 +220,12 @@ func TestC10V1Lend(t *testing.T) {
 				}
 				known[au.AuctionId] = true
 				n++
-				tr.p("op lstart %d %s %s %d %s %d %s %d ok", au.AuctionId, au.OutflowTokenCurrentAmount.Amount, au.InflowTokenTargetAmount.Amount,
-					c10Unix(au.StartTime), b2s(actD), twaDcur, b2s(actC), twaC)
+				lv, lvFound := a.LiquidationKeeper.GetLockedVault(c, app, au.LockedVaultId)
+				if !lvFound {
+					t.Fatalf("case %d: lend auction %d without its locked vault %d", ci, au.AuctionId, au.LockedVaultId)
+				}
+				tr.p("op lstart %d %s %s %d %s %d %s %d ok %d %s %s %s", au.AuctionId, au.OutflowTokenCurrentAmount.Amount, au.InflowTokenTargetAmount.Amount,
+					c10Unix(au.StartTime), b2s(actD), twaDcur, b2s(actC), twaC, au.LockedVaultId, lv.AmountIn, lv.AmountOut, lv.UpdatedAmountOut)
 			}
 			return n
 		}
@@ -313,6 +326,12 @@ func TestC10V1Lend(t *testing.T) {
 					}
 				case o.priceClass <= 7:
 					actC, actD = true, true
+				case o.priceClass == 8:
+					// a feed goes inactive and stays so until a class 0/1/6/7 tick: the closing bids that follow meet
+					// the feed requirement of UnLiquidateLockedBorrows (fix 6257748)
+					actC = false
+				case o.priceClass == 9:
+					actD = false
 				}
 				c = c10At(ctx, now)
 				setPrice(a, c, assetC, twaC, actC)
@@ -381,11 +400,15 @@ func TestC10V1Lend(t *testing.T) {
 				}
 				msg := &auctionv1types.MsgPlaceDutchLendBidRequest{AuctionId: aid, Bidder: bidders[o.who].String(), Amount: sdk.Coin{Denom: denom, Amount: amt},
 					AppId: app, AuctionMappingId: 3}
+				// the two feeds as the bid finds them (the message itself does not move them)
+				twD, twDFound := a.MarketKeeper.GetTwa(c, assetD)
+				twC, twCFound := a.MarketKeeper.GetTwa(c, assetC)
 				class, berr, _ := execMsg(a, c, msg)
 				if debug && berr != nil {
 					tr.p("# %s", strings.ReplaceAll(berr.Error(), "\n", " "))
 				}
-				tr.p("op bid %d %d %s %s %s", aid, o.who, amt, b2s(denom != denomC), class)
+				tr.p("op bid %d %d %s %s %s %d %s %d %s", aid, o.who, amt, b2s(denom != denomC),
+					b2s(twDFound && twD.IsPriceActive), twD.Twa, b2s(twCFound && twC.IsPriceActive), twC.Twa, class)
 				newAuctions()
 				observe()
 			}
